@@ -208,7 +208,7 @@ def field_writes(fn, field_re):
     Returns list of dict(bb, kind='assign'|'mutborrow', path=str, line=int, rv=E|None)."""
     out = []
     for bb, si, s in fn.statements():
-        if s[0] not in ("=", "setdiscr"):
+        if s[0] not in ("=", "setdiscr") or fn.blocks[bb].get("cleanup"):
             continue
         pl = s[1]
         path = _place_path(fn, pl)
@@ -221,7 +221,7 @@ def field_writes(fn, field_re):
                 out.append({"bb": bb, "kind": "mutborrow", "path": p2, "line": fn.stmt_line(s), "rv": None})
     for cs in fn.calls:
         d = cs.dest
-        if len(d) > 1:
+        if len(d) > 1 and not fn.blocks[cs.bb].get("cleanup"):
             path = _place_path(fn, d)
             if re.search(field_re, path):
                 out.append({"bb": cs.bb, "kind": "assign", "path": path, "line": cs.line, "rv": fn._call_expr(cs, 0, ())})
@@ -421,7 +421,7 @@ def writers_of_field(prog, adt_re, field, crates=None):
         if crates and f.crate not in crates:
             continue
         for bb, si, s in f.statements():
-            if s[0] != "=":
+            if s[0] != "=" or f.blocks[bb].get("cleanup"):
                 continue
             tgt = None
             if any(p == "." + field for p in s[1][1:]):
